@@ -122,14 +122,26 @@ def unroll(ex, state, st, kind, limit=64):
             items = concrete_items(ex, state, src[1], st)
         if len(items) > limit:
             raise Unsupported("unroll limit")
+        # a dict with optional keys (type odict): each key is visited only if it is present
+        guards = None
+        if src[0] != "range" and isinstance(src[1], VRef):
+            guards = getattr(ex.obj(state, src[1]), "opt", None)
         cur = state
         broke = []
         for it in items:
             if cur is None:
                 break
+            skipped = None
+            if guards is not None:
+                g = guards.get(ex.const_key(it))
+                if g is not None:
+                    skipped = cur.copy()
+                    skipped.pending = []
+                    skipped.assume(z3.Not(g))
+                    cur.assume(g)
             ex.assign(cur, st.target, it)
-            res = ex.exec_block(cur, st.body)
-            normals = []
+            res = ex.exec_block(cur, st.body) if not cur.dead() else []
+            normals = [skipped] if skipped is not None and not skipped.dead() else []
             for o in res:
                 if o.kind in ("normal", "continue"):
                     normals.append(o.state)
